@@ -42,7 +42,10 @@ def run_case(fmt, case, per_req_timeout):
     if "size" in spec and size != spec["size"] and not case.get("no_size_check"):
         fails.append({"api": "size", "kind": "mismatch", "detail": f"stream.size={size} spec size={spec['size']}"})
     base_io = getattr(fh, "bytes_read", 0)
+    stats["open_io"] = base_io
+    stats["per_request_io"] = []
     for req in case["requests"]:
+        io0 = getattr(fh, "bytes_read", 0)
         off, ln = req[0], req[1]
         api = req[2] if len(req) > 2 else "stream.read"
         stats["requests"] += 1
@@ -72,6 +75,7 @@ def run_case(fmt, case, per_req_timeout):
             signal.setitimer(signal.ITIMER_REAL, 0)
             fails.append({"api": api, "req": [off, ln], "kind": "exception", "detail": f"{type(e).__name__}: {e}", "tb": traceback.format_exc()[-500:]})
             continue
+        stats["per_request_io"].append([off, ln, api, getattr(fh, "bytes_read", 0) - io0])
         if any(exp):
             stats["nontrivial"] += 1
         if got != exp:
